@@ -5,6 +5,9 @@ from . import sx
 from .core import PathEnd, CheckFailed, Unsupported, is_sym
 
 
+CONCRETIZE_CAP = 300
+
+
 class Stats:
     def __init__(self):
         self.queries = 0
@@ -32,6 +35,7 @@ class PathCtx:
         self.sample_every = sample_every
         self.fresh = 0
         self.nondet = []
+        self.concretize_cap = CONCRETIZE_CAP
         self.decided = {}
         self.interp = None
         self.keep = []   # keeps decided terms alive so that their ids are not reused
@@ -162,8 +166,8 @@ class PathCtx:
             val = m.eval(expr)
             if self._check(expr != val):
                 n += 1
-                if n > 300:
-                    raise Unsupported('concretisation of a value with more than 300 feasible values')
+                if n > self.concretize_cap:
+                    raise Unsupported('concretisation of a value with more than %d feasible values' % self.concretize_cap)
                 self.nsym_decisions += 1
                 self.alts.append(self.trace + [('ne', val)])
                 self.note_fork()
@@ -205,8 +209,8 @@ class PathCtx:
             c = sx.RealVal(q)
             if self._check(expr != c):
                 n += 1
-                if n > 300:
-                    raise Unsupported('concretisation of a real with more than 300 feasible values')
+                if n > self.concretize_cap:
+                    raise Unsupported('concretisation of a real with more than %d feasible values' % self.concretize_cap)
                 self.alts.append(self.trace + [('ne', (q.numerator, q.denominator))])
                 self.nsym_decisions += 1
             sx.assert_(expr == c)
